@@ -190,4 +190,22 @@ CLAIMED = {
          "deferred operations)."),
    note="Trusted: Coq kernel, extraction, harness (nesting counter in the driver), kernel environment model. The theorem excludes runs that exhaust the model's fuel; the run reports fuel exhaustion as a mismatch.",
    technique="Coq proof (stack-shape invariant by induction over the work-list machine, lifted to all chain scripts); differential correspondence + ledger oracle"),
+ "C02": dict(
+   text=("Coq theorems (5, closed) about the model of the read/write reactors of file.go (TCP conns) and async_adapter.go, "
+         "with the transport - unread bytes, end of stream, accepted bytes, and for the adapter an arbitrary script of "
+         "(count, error) results - in the state, so that all payloads, buffer sizes and segmentations are quantified over: "
+         "one run of asyncReadNow/asyncWriteNow moves exactly the bytes it takes, in order, keeps their exact count, and "
+         "reports nil on an *All operation only with the buffer complete; for EVERY history (reads and writes of both "
+         "kinds in flight together, polls, peer data, EOF, any result scripts) under the one-read-one-write contract: every "
+         "byte the peer sent is exactly once, in order, in a completed read's buffer, in the buffer of the read in flight, "
+         "or unread; the transport received exactly the accepted prefixes of the writes, in order; every callback's count "
+         "is the number of bytes moved. The model is run against the real AsyncAdapter (scripted io.ReadWriter: every "
+         "composition of <= 6 bytes into <= 3 segments x every disturbance position x Read/ReadAll x 4 buffer sizes; random "
+         "long scripts) and against a real sonic.Dial TCP conn (peer segments between polls, half-close at every cut, "
+         "200 kB ReadAll, 6 MiB WriteAll with kernel-chosen splits); an independent stream oracle judges the "
+         "implementation's trace (position-dependent bytes, sentinels behind the buffer)."),
+   note=("Trusted: Coq kernel, extraction, harness glue (scripted io.ReadWriter, raw peer socket). For large TCP writes only the "
+         "final outcome is compared (the split is the kernel's; theorem C02_writeall_outcome_independent_of_split). "
+         "Readiness/dispatch, cancel and close are C01's model; TCP itself is not modelled."),
+   technique="Coq proof (stream invariant by induction over histories, all segmentations as state); differential correspondence on adapter and real TCP + extracted stream oracle"),
 }
